@@ -15,19 +15,19 @@ LEMMA = "Transition-level lemmas only: the composition from per-transition lemma
 CLAIMED = {
  "C01": ("symgo+tsgen", "model_checking", TECH_B + "; real ring under concurrency: " + TECH_P,
   "The real Enqueue/Pause/Resume/process/processHandle SSA is compiled into a pc-indexed transition relation and unrolled K steps with the schedule as solver variables: every interleaving (at atomic-operation granularity) of <=3 caller threads and the dynamically spawned consumer goroutines within K steps is covered for: one handler at a time, no message handled twice, no Pop-from-empty panic, every accepted message handled at quiescence without a later send, pause/resume semantics, handler re-entrancy, and termination of the consumer when nothing may be processed (no spin).",
-  "Bounds K, goroutine pool, <=3 messages (evidence lists them and whether some schedule is not quiescent at K); ring buffer replaced by a FIFO summary in the BMC jobs, justified by C02 and by the ring_concurrent_* jobs of this check (the REAL RingQueue under two producers and an optional consumer, every schedule with <= P preemptions, happens-before race detector, symbolic items/fill/wrap position); sequential consistency for sync/atomic; counterexamples confirmed by replaying the schedule on the real SSA in the interpreter (not natively).",
+  "Bounds K, goroutine pool, <=3 messages in the BMC jobs (evidence lists them and whether some schedule is not quiescent at K); ring buffer replaced by a FIFO summary in the BMC jobs, justified by C02 and by the ring_concurrent_* jobs of this check (the REAL RingQueue under two producers and an optional consumer, every schedule with <= P preemptions, happens-before race detector, symbolic items/fill/wrap position); sequential consistency for sync/atomic; counterexamples confirmed by replaying the schedule on the real SSA in the interpreter (not natively).",
   "DESIGN.md §3 C01, §2.2"),
  "C02": ("symgo+tsgen", "model_checking", TECH_A + "; per-sender order under concurrency: " + TECH_B + "; real ring under concurrent producers/consumer: " + TECH_P,
   "Ring buffer against a reference FIFO: all operation sequences of length L from New(size), sizes 1..4, plus one inductive Push/Pop/PopMany step from every valid ring state of capacity <= maxmod (payloads symbolic); stash/unstash order and the kill flag on the real Context; per-sender FIFO for two messages of one sender racing a second sender under every interleaving within K steps (tsgen); the real RingQueue under two producers (+ optional consumer) for every schedule with <= P preemptions: every accepted item out exactly once, per-producer order, no empty slot, no data race.",
-  "Bounds L, size, maxmod, K in evidence; sync.Mutex and sync/atomic modelled in the engine.",
+  "Bounds L, size, maxmod, K, P in evidence; sync.Mutex and sync/atomic modelled in the engine; large-size jobs: ring at initial capacities 16/64/256 across growth with interleaved pops, stash of up to 130 messages, backlog of up to 130 user messages with a handler pausing the mailbox (crosses any batching threshold up to 128).",
   "DESIGN.md §3 C02"),
  "C03": ("symgo+tsgen", "model_checking", TECH_A + "; mailbox wake-up job: " + TECH_B,
   LEMMA + "One send over the product reference provenance x target state on the real tell/findMailbox/HandleEnvelop/guard/eventStream code: exactly one fate (processed, stashed, one dead letter); bounded work after system stop.",
-  "One deterministic delivery schedule; recording mailboxes; the (provenance, state) cells are enumerated by hand.",
+  "One deterministic delivery schedule per sequence job (the mailbox wake-up job is BMC over all interleavings); recording mailboxes; the (provenance, state) cells are enumerated by hand; multi-step sequence jobs: child failing while its supervisor is stopping/restarting, target paused again while it lingers in killing.",
   "DESIGN.md §3 C03"),
  "C04": ("symgo+tsgen", "model_checking", TECH_B + "; registration lemmas: " + TECH_A,
   "The real Future (EnqueueMessage/Close/PipeTo/Result) under every interleaving within K steps of a replier, the timeout closer, a PipeTo caller and a waiter: one-shot completion, forwarder told exactly once with the final result, nobody blocked, exactly one of {reply, timeout}; plus, on the real Context.ask/appendFuture/removeFuture/doKill, 1..3 outstanding Asks completed in a solver-chosen order by reply / asker death / timeout-then-late-reply: own reply only, actor-dead on asker death, no registration left.",
-  "One future, one forwarder; timer replaced by a thread (not-earlier-than-timeout NOT decided); <=3 Asks of one asker; deterministic delivery inside the world.",
+  "One future, one forwarder; timer replaced by a thread in the BMC job (the virtual-clock job decides not-earlier-than-timeout sequentially); <=3 Asks of one asker; deterministic delivery inside the world; registration_live: the real asker/replier actors on the live system, every schedule with <= P preemptions (quick 1, thorough 2), race detector.",
   "DESIGN.md §3 C04"),
  "C07": ("symgo+tsgen", "model_checking", TECH_B + "; status table: " + TECH_A,
   "Real Start() run in setup, its guardian goroutine captured as a thread; a Stop() caller racing a second Stop() or a second Start() caller, root termination, optional stop timeout and external context cancel (also cancel alone, with no Stop call) under every interleaving within K steps: every call returns, no goroutine blocked forever, one winner, a concurrent Start is rejected and never re-runs the start chain, the root is killed exactly once, the scheduler stopped once, status stopped; plus every sequence of <=3 (thorough 5) real Start/Stop calls follows the error table.",
@@ -35,31 +35,31 @@ CLAIMED = {
   "DESIGN.md §3 C07"),
  "C15": ("symgo", "model_checking", TECH_A,
   LEMMA + "Each ActorRef-taking operation (Tell, Kill immediate/poison, Watch, Unwatch, Ping, Ask/Reply, PipeTo) issued across two harness systems joined by an in-memory wire runs the real findMailbox -> remoting mailbox -> EncodeEnvelopWithRemoting -> DecodeEnvelopWithRemoting -> HandleRemotingEnvelop path with symbolic message contents; same observable effect as the local run.",
-  "One deterministic delivery schedule; sockets/handshake replaced by an in-memory connection; harness codec for the user type; no-codec configuration not run.",
+  "One deterministic delivery schedule; sockets/handshake replaced by an in-memory connection; harness codec for the user type (able to carry the nil message of a failed PipeResult, like a JSON codec); PipeTo forwarding of success, of a field-less reply, of a plain-error failure and of a timeout to a remote forwarder; no-codec configuration not run.",
   "DESIGN.md §3 C15"),
  "C20": ("symgo", "model_checking", TECH_A,
   LEMMA + "Solver-chosen sequences of Once/Loop/Cancel/Clear/Kill/restart over 2 references x 2 actors with solver-chosen delays against a virtual clock on the real actor Scheduler / onScheduler / cleanupScheduler: exact firing counts, never before the delay, nothing after cancel/clear/death/restart, not-found for unknown references, original message value; invalid cron rejected and schedules nothing.",
-  "go-quartz replaced by a fake with its documented contract; ops<=3 (4 thorough); cancellation racing the firing goroutine not quantified.",
+  "go-quartz replaced by a fake with its documented contract (a pending key is refused, a run-once job expires with its firing); ops<=3 (4 thorough); owners with prefix-related paths (/a, /a1); cancellation racing the firing goroutine not quantified.",
   "DESIGN.md §3 C20"),
  "C05": ("symgo", "model_checking", TECH_A,
   LEMMA + "Dead actors run nothing; restart under every hook-outcome combination (fresh instance, behaviour reset, exactly one OnLaunch to the restarted actor only, zombie on hook failure); OnLaunch first and prelaunch failure on the real ActorOf.",
-  "One deterministic delivery schedule; small trees; hooks modelled by harness actors.",
+  "One deterministic delivery schedule for the lemma jobs; small trees; hooks modelled by harness actors; launch_first_live: live system with a spawn-event listener greeting every new actor, every schedule with <= P preemptions (quick 1, thorough 2).",
   "DESIGN.md §3 C05"),
  "C06": ("symgo", "model_checking", TECH_A,
   LEMMA + "Kill (poison symbolic, optionally repeated) of an actor with 0..2 children, a grandchild, 0..2 watchers, subscription and scheduled job: subtree terminated children-first, each notice/event exactly once, path released and reusable, subscriptions and jobs gone.",
-  "One deterministic delivery schedule; concurrent kills and kills racing spawns are outside.",
+  "One deterministic delivery schedule; sequences: respawn under the same name from the OnKilled handler, rejected duplicate spawn before the kill, zombie released exactly once, up to 70 children; kills racing spawns from other goroutines are C10 scenarios.",
   "DESIGN.md §3 C06"),
  "C08": ("symgo", "model_checking", TECH_A,
   LEMMA + "Every decision x {one-for-one, one-for-all} x {panic, Failed} with a sibling subtree and a bystander, run to quiescence on the real supervision code: strategy consulted once, exactly the targets touched, directive semantics, escalation ends in default stop, no supervision while stopping.",
-  "One deterministic delivery schedule; chain depth 1; repeated failures outside.",
+  "One deterministic delivery schedule per sequence; escalation chains of 1-2 hops; sequences: failure while stopping, child failing while its supervisor is restarting/stopping, second failure (in a system-message handler) while the first decision is pending, failing child with a live child of its own.",
   "DESIGN.md §3 C08"),
  "C09": ("symgo", "model_checking", TECH_A,
   LEMMA + "Same runs as C08 plus restart-hook failures: no survivor left paused or with undelivered mail, later mail processed, queued burst delivered in order around restart/resume, zombie semantics, mailbox commands.",
-  "One deterministic delivery schedule; mailbox part under concurrency is C01.",
+  "One deterministic delivery schedule per sequence; mailbox part under concurrency is C01; sequences as C08 plus zombie + failing sibling under one-for-all and explicit/parent release of the zombie.",
   "DESIGN.md §3 C09"),
  "C11": ("symgo", "model_checking", TECH_A,
   "Framing layer: F frames with symbolic bodies through the real onReadConn/bufio/io.ReadFull/decode path over a fake connection whose reads are segmented at every feasible length (coalescing and splitting explored): every body exactly once, intact, in order, sender designates the original; 4 MiB boundary job.",
-  "F<=3 frames, bodies <=2 bytes, bounded number of short reads; real sockets/TLS/concurrent senders outside.",
+  "F<=3 frames, bodies <=2 bytes, bounded number of short reads; frames of 4000..8200 bytes around the 4096-byte reader buffer (reads cut by the buffer); connection establishment: real dialler and acceptor handshakes + first frames over a maximally coalescing duplex link, and two goroutines sending through one remoting mailbox, each under every schedule with <= P preemptions (quick 2, thorough 3); real sockets/TLS outside.",
   "DESIGN.md §3 C11"),
  "C12": ("symgo", "model_checking", TECH_A,
   "For every message type in the wire registry: symbolic value (full-width integers, strings/bytes of every length 0..maxlen with symbolic content, nested payloads, valid refs) -> real EncodeEnvelopWithRemoting -> real DecodeEnvelopWithRemoting -> field-wise equality and unchanged envelope metadata; primitive writer/reader agreement for every supported type incl. varints, reflection path and length-prefix boundaries; payload lengths across the writer's buffer-growth boundaries (every length in 190..270 quick, 0..1100 thorough, contents symbolic) for the types with a variable-size field; registry coverage guard.",
@@ -83,7 +83,7 @@ CLAIMED = {
   "DESIGN.md §3 C17"),
  "C19": ("symgo", "model_checking", TECH_A,
   "Every sequence of L operations {Subscribe, Unsubscribe, UnsubscribeAll, Publish} x 2 subscribers x 2 event types on the real eventStream against a reference set; termination removes, restart keeps subscriptions.",
-  "L<=4; sequential (atomicity by the RWMutex is not explored as schedules).",
+  "L<=4 for the sequence job; concurrent[5 variants]: operations of different actors racing (two first subscribers, subscribe vs the last subscriber leaving, two publishers) under every schedule with <= P preemptions (quick 2, thorough 3) with the race detector; up to 100 subscribers of one type.",
   "DESIGN.md §3 C19"),
  "C10": ("symgo", "model_checking", TECH_P,
   "Bounded scenario set on a LIVE mini system (real System, root guard actor, Contexts, UnboundedMailbox and consumer goroutines, eventStream, Future): 2-3 goroutines call ActorSystem.ActorOf/Tell/Ask/Kill/FindActor, event-stream Subscribe/Publish, Future Result/Close/PipeTo and share one ActorRef while actors are spawned, fail (supervised), reply and terminate. Every schedule with at most P preemptions (quick 1, thorough 2) at sync / sync/atomic / channel / go operations is executed on the real SSA with a vector-clock happens-before race detector over every load, store and map access: no data race, no panic/fatal, no deadlock, actor tree consistent at quiescence, same name spawned concurrently wins once, concurrent Asks each get a reply.",
